@@ -743,7 +743,7 @@ func respell(r *gen.Rand, s string) string {
 }
 
 func (w *world) amount(r *gen.Rand, payer int64, payee int64) int64 {
-	switch r.Pick(40, 25, 35) {
+	switch r.Pick(50, 25, 25) {
 	case 0:
 		switch r.Intn(6) {
 		case 0:
@@ -772,15 +772,50 @@ func (w *world) amount(r *gen.Rand, payer int64, payee int64) int64 {
 	return edges[r.Intn(len(edges))]
 }
 
+// funded picks an (account spelling, exec) pair that has a sub-ledger record, or a main
+// account with a record, so that debiting operations are accepted often enough.
+func (w *world) funded(r *gen.Rand, sub bool) (string, string, bool) {
+	var ks []string
+	want := w.mainPrefix
+	if sub {
+		want = w.execPrefix
+	}
+	for k := range w.kv.keys {
+		if strings.HasPrefix(k, want) && (sub || !strings.HasPrefix(k, w.execPrefix)) {
+			ks = append(ks, k)
+		}
+	}
+	if len(ks) == 0 {
+		return "", "", false
+	}
+	sort.Strings(ks)
+	k := ks[r.Intn(len(ks))][len(want):]
+	if !sub {
+		return respell(r, k), "", true
+	}
+	i := strings.IndexByte(k, ':')
+	return respell(r, k[i+1:]), k[:i], true
+}
+
 func (w *world) genOp(r *gen.Rand, p *pool, rich bool) op {
 	acc := w.acc
 	mb := func(a string) int64 { return acc.LoadAccount(a).Balance }
 	sb := func(a, e string) *types.Account { return acc.LoadExecAccount(a, e) }
 	u, v, e := p.user(r), p.user(r), p.exec(r)
+	kind := r.Pick(10, 2, 5, 4, 6, 4, 10, 8, 8, 6, 10, 8, 5, 4, 5, 5)
+	subOp := kind >= 7 && kind <= 11 || kind == 15
+	if r.Chance(2, 3) {
+		if a, x, ok := w.funded(r, subOp); ok {
+			u = a
+			if subOp {
+				e = x
+			}
+		}
+	}
 	if r.Chance(1, 6) {
 		v = respell(r, u) // deliberately two spellings of one account
 	}
-	switch r.Pick(10, 2, 5, 4, 6, 4, 10, 8, 8, 6, 10, 8, 5, 4, 5, 5) {
+	switch kind {
 	case 0:
 		return op{"transfer", []string{u, v}, w.amount(r, mb(u), mb(v))}
 	case 1:
@@ -800,8 +835,8 @@ func (w *world) genOp(r *gen.Rand, p *pool, rich bool) op {
 		return op{"genesis", []string{u}, a}
 	case 5:
 		a := w.amount(r, limit/3, mb(e))
-		if a < 0 && !r.Chance(1, 8) {
-			a = -(a + 1)
+		if (a <= 0 || a >= limit) && !r.Chance(1, 6) {
+			a = int64(r.U64()%uint64(limit-1)) + 1
 		}
 		return op{"genesisexec", []string{u, e}, a}
 	case 6:
@@ -935,7 +970,7 @@ func main() {
 	p := newPool(r)
 	out.Op("cfg allow "+strings.Join(p.allow, " "), "ok")
 	out.Op("limits", fmt.Sprintf("%d %d", limit, maxBal))
-	nseq := gen.Scale(1500, 60000)
+	nseq := gen.Scale(4000, 150000)
 	for i := 0; i < nseq; i++ {
 		if i%200 == 199 {
 			p = newPool(r) // fresh hex addresses
